@@ -49,7 +49,7 @@ def units(tier):
     R = 3 if tier == "quick" else 4
     u = [("window", k, R) for k in allk]
     u += [("reduction", k) for k in ("tric", "nondiag_sc", "nondiag_sc2", "hex", "shear60")]
-    u += [("tables", 0)]
+    u += [("tables", 0), ("primitive", 0)]
     if tier == "thorough":
         K = 12
         u += [("niggli", 2, k, K) for k in range(K)] + [("niggli", 3, k, 3 * K) for k in range(3 * K)]
@@ -231,6 +231,46 @@ def tables_unit(u, res):
     return res
 
 
+def primitive_unit(u, res):
+    """the tables *as stored on Primitive* (converted to the primitive basis) against a brute-force minimum-image enumeration, on
+    cells where (P^-1 S)^T is not symmetric (centred primitive cells in anisotropic supercells, non-diagonal supercells)"""
+    ctx = harness.setup()
+    from engine import bridge
+    import geometries
+    br = bridge.Bridge(ctx.shim, ctx.ir); br.install()
+    try:
+        for gid, sid, dense in (("bccI", "211", True), ("bccI", "211", False), ("fccF", "211", True), ("tric2", "nd4", True), ("tric2", "nd4", False),
+                                ("nacl8i", "111", True), ("hex2", "nd1", True), ("mono2", "nd1", False)):
+            ph = geometries.phonopy_obj(gid, sid, store_dense_svecs=dense)
+            pr, sc = ph.primitive, ph.supercell
+            svecs, multi = pr.get_smallest_vectors()
+            Ls = sc.cell
+            ok = True; why = ""
+            for i in range(len(sc)):
+                for jj, j in enumerate(pr.p2s_map):
+                    d0 = sc.scaled_positions[i] - sc.scaled_positions[j]
+                    d0 = d0 - np.rint(d0)
+                    cand = np.array([(d0 + np.array(n)) @ Ls for n in itertools.product(range(-2, 3), repeat=3)])
+                    lens = np.linalg.norm(cand, axis=1)
+                    want = sorted(tuple(np.round(c, 5) + 0.0) for c, l in zip(cand, lens) if l - lens.min() < 1e-5)
+                    if dense:
+                        m, adr = multi[i, jj]; vs = svecs[adr:adr + m]
+                    else:
+                        vs = svecs[i, jj, :multi[i, jj]]
+                    got = sorted(tuple(np.round(v @ pr.cell, 5) + 0.0) for v in vs)
+                    if got != want:
+                        ok = False; why = "pair (supercell atom %d, primitive atom %d): stored vectors %s, minimum images %s" % (i, jj, got[:2], want[:2])
+            name = "shortest vectors stored on Primitive (primitive basis) == brute-force minimum images [%s/%s, %s] [ground fact]" % (gid, sid, "dense" if dense else "sparse")
+            res.queries.append({"name": name, "verdict": "unsat" if ok else "sat", "seconds": 0.0, "nvars": 0, "nontrivial": False, "hash": "ground"})
+            if not ok:
+                res.violations.append({"key": "%s:primitive:%s/%s:%s" % (PID, gid, sid, "dense" if dense else "sparse"), "what": why, "replay": {"gid": gid, "sid": sid, "dense": dense}})
+    finally:
+        br.uninstall()
+    res.twins.append({"name": "primitive tables twin", "verdict": "sat"})
+    res.samples.append({"unit": res.unit})
+    return res
+
+
 def niggli_unit(u, res):
     """window completeness for a *symbolic lattice*: the Gram matrix of the reduced basis is 5 free reals (scale fixed by
     a.a = 1) constrained by the main Niggli conditions (a superset of the Niggli-reduced cells: the tie-breaking special
@@ -305,7 +345,7 @@ def replay_niggli(Gv, dv):
 def run_unit(u):
     res = Result("/".join(str(x) for x in u))
     harness.setup()
-    return {"window": window_unit, "reduction": reduction_unit, "tables": tables_unit, "niggli": niggli_unit}[u[0]](u, res)
+    return {"window": window_unit, "reduction": reduction_unit, "tables": tables_unit, "primitive": primitive_unit, "niggli": niggli_unit}[u[0]](u, res)
 
 
 def main(tier, seed):
